@@ -233,9 +233,7 @@ def run(prog: Program, res: Result) -> None:  # noqa: PLR0912, PLR0915
     res.rule("C12.R4", "Path.__str__ and its token-level sibling PathToken.__str__ emit a string segment bare (or after a dot) only under an RE_PROPERTY.fullmatch guard - including the first segment")
     n_seg = 0
     for path in (prog.cls("liquid2.builtin.expressions.Path"), prog.cls("liquid2.token.PathToken")):
-        ps = path.methods.get("__str__")
-        if ps is None:
-            raise AnalysisError(f"{path.name}.__str__ vanished")
+        ps = _printer_body(path)
         for n in ast.walk(ps.node):
             emitted: list[tuple[ast.AST, ast.AST]] = []
             if isinstance(n, ast.Assign) and isinstance(n.value, ast.List):
@@ -297,15 +295,31 @@ def run(prog: Program, res: Result) -> None:  # noqa: PLR0912, PLR0915
             for c in ast.walk(f.node):
                 if isinstance(c, ast.Compare) and norm(c.left) == "token.value" and isinstance(c.ops[0], ast.Eq) and isinstance(c.comparators[0], ast.Constant) and isinstance(c.comparators[0].value, str):
                     special.add(c.comparators[0].value)
+    # contextual keywords: every word any parse function compares a token's `.value` against (for-tag arguments, `continue` …)
+    for pf in prog.all_functions():
+        if not (pf.name == "parse" or pf.name.startswith(("parse_", "_parse"))):
+            continue
+        for c in ast.walk(pf.node):
+            if isinstance(c, ast.Match) and isinstance(c.subject, ast.Attribute) and c.subject.attr == "value":
+                for case in c.cases:
+                    for x in ast.walk(case.pattern):
+                        if isinstance(x, ast.MatchValue) and isinstance(x.value, ast.Constant) and isinstance(x.value.value, str):
+                            special.add(x.value.value)
+            elif isinstance(c, ast.Compare) and isinstance(c.left, ast.Attribute) and c.left.attr == "value" and len(c.ops) == 1 and isinstance(c.ops[0], (ast.Eq, ast.NotEq, ast.In, ast.NotIn)):
+                r_ = c.comparators[0]
+                for x in r_.elts if isinstance(r_, (ast.Tuple, ast.List, ast.Set)) else [r_]:
+                    if isinstance(x, ast.Constant) and isinstance(x.value, str) and re.fullmatch(r"[A-Za-z_][A-Za-z0-9_]*", x.value):
+                        special.add(x.value)
     res.floor("C12.R4", "lexer keywords", len(kw_words), 10)
-    what = "token.RESERVED_WORDS covers every lexer keyword and every word the primitive parsers treat specially"
+    res.floor("C12.R4", "contextual keywords compared with token values", len(special), 4)
+    what = "token.RESERVED_WORDS covers every lexer keyword and every word a parse function compares a token's value with (primitive literals, for-tag arguments, `continue`)"
     missing = sorted((kw_words | special) - (reserved or set()))
     if reserved is not None and not missing:
         res.ok("C12.R4", f"{tok_mod.relpath} RESERVED_WORDS", what, f"{len(reserved)} words")
     else:
         res.fail("C12.R4", file=tok_mod.relpath, line=1, qualname="RESERVED_WORDS", construct=f"RESERVED_WORDS misses {missing}" if reserved is not None else "RESERVED_WORDS not found", message=f"the printers' reserved-word table {'misses ' + str(missing) if reserved is not None else 'is missing'}: a variable or name spelled like one of these words is printed bare and read back as the keyword/literal", what=what)
     for path, fname in ((prog.cls("liquid2.builtin.expressions.Path"), "__str__"), (prog.cls("liquid2.token.PathToken"), "__str__")):
-        m = path.methods[fname]
+        m = _printer_body(path)
         what = f"{path.name}.{fname} consults RESERVED_WORDS for a root that stands alone"
         if any(isinstance(x, ast.Name) and x.id == "RESERVED_WORDS" for x in ast.walk(m.node)):
             res.ok("C12.R4", f"{m.file}:{m.node.lineno} {path.name}.{fname}", what, "mentions RESERVED_WORDS")
@@ -944,6 +958,8 @@ def _string_writer_rule(prog: Program, res: Result) -> None:  # noqa: PLR0912
     for cname in ("StringLiteral", "TemplateString", "Path"):
         ci = prog.resolve(ex, cname)
         m = prog.find_method(ci, "__str__") if isinstance(ci, ClassInfo) else None
+        if m is not None and isinstance(ci, ClassInfo) and "__str__" in ci.methods:
+            m = _printer_body(ci)  # follow `return self._str(...)`
         what = f"{cname}.__str__ quotes its text through an escaping helper"
         calls = {c.func.id for c in ast.walk(m.node) if isinstance(c, ast.Call) and isinstance(c.func, ast.Name)} if m is not None else set()
         used = [h.name for h in helpers.values() if h.name in calls and any(isinstance(c, ast.Call) and isinstance(c.func, ast.Attribute) and c.func.attr == "replace" for c in ast.walk(h.node))]
@@ -1168,6 +1184,19 @@ def _literal_shapes_rule(prog: Program, res: Result) -> None:
             res.fail("C12.R14", file=ex.relpath, line=sm.node.lineno, qualname="TemplateString.__str__", construct=f"template string ({label}) printed as `{txt[:60]}`", message=f"a template string with {label} is printed `{txt}`, which reads back as {back} instead of {want_parts}", what=what)
 
 
+def _printer_body(ci: ClassInfo):  # noqa: ANN202
+    """The method that builds the printed text: __str__, or the method of the same class it delegates to (`return self._str(...)`)."""
+    ps = ci.methods.get("__str__")
+    if ps is None:
+        raise AnalysisError(f"{ci.name}.__str__ vanished")
+    body = [st for st in ps.node.body if not (isinstance(st, ast.Expr) and isinstance(st.value, ast.Constant))]
+    if len(body) == 1 and isinstance(body[0], ast.Return) and isinstance(body[0].value, ast.Call) and isinstance(body[0].value.func, ast.Attribute) and isinstance(body[0].value.func.value, ast.Name) and body[0].value.func.value.id == "self":
+        target = ci.methods.get(body[0].value.func.attr)
+        if target is not None:
+            return target
+    return ps
+
+
 def _read_path(txt: str, name_rx: "re.Pattern[str]", reserved: set[str]):  # noqa: ANN202
     """Model of the path grammar: root (name | [inner]) followed by .name / [inner]; inner = int | quoted | path.
     Returns the list of segments (str / int / nested list) or a string describing why it is not that path."""
@@ -1203,7 +1232,8 @@ def _read_path(txt: str, name_rx: "re.Pattern[str]", reserved: set[str]):  # noq
         if m:
             segs.append(m.group())
             pos = m.end()
-        elif pos < len(txt) and txt[pos] == "[":
+        elif pos < len(txt) and txt[pos] == "[" and not nested:
+            # only a top-level path may start with a bracketed root; inside brackets the lexer wants a string, an index or a name
             pos += 1
             segs.append(inner())
             if pos >= len(txt) or txt[pos] != "]":
@@ -1226,7 +1256,8 @@ def _read_path(txt: str, name_rx: "re.Pattern[str]", reserved: set[str]):  # noq
                 pos += 1
             else:
                 break
-        if len(segs) == 1 and isinstance(segs[0], str) and segs[0] in reserved and (txt[0] != "["):
+        if not nested and len(segs) == 1 and isinstance(segs[0], str) and segs[0] in reserved and (txt[0] != "["):
+            # at the top level a lone word such as true/nil/empty is the literal; inside brackets (`a[true]`) it is a nested variable
             raise ValueError(f"`{segs[0]}` alone reads back as a keyword, not a variable")
         return segs
 
@@ -1268,7 +1299,7 @@ def _path_shapes_rule(prog: Program, res: Result) -> None:
         def mk(p):  # noqa: ANN001, ANN202
             return Sym(cls, {"path": [mk(x) if isinstance(x, list) else x for x in p]})  # noqa: B023
 
-        shapes = [["a"], ["a", "b"], ["a b"], ["true"], ["nil", "x"], ["if"], [0], [12, "x"], ["a", 0], ["a", -1], ["a", "b c"], ["a", ["b"]], [["b"]], [["b", "c"], "d"], ["it's"], ["a", 'say "hi"'], ["a", "q\"'"], ["a-b"], ["a", "1x"], ["é"], [""]]
+        shapes = [["a"], ["a", "b"], ["a b"], ["true"], ["nil", "x"], ["if"], [0], [12, "x"], ["a", 0], ["a", -1], ["a", "b c"], ["a", ["b"]], [["b"]], [["b", "c"], "d"], ["a", ["true"]], [["nil"]], ["a", ["empty", "x"]], ["it's"], ["a", 'say "hi"'], ["a", "q\"'"], ["a-b"], ["a", "1x"], ["é"], [""]]
         for shape in shapes:
             n += 1
             E.steps = 0
